@@ -306,6 +306,10 @@ def solve_one(args):
             return idx, 'unsat', name, time.time() - t0, None, log
         if ans == 'sat':
             return idx, 'sat', name, time.time() - t0, None, log
+    if ground == 'reach':
+        # the goal is the constant False (a construct that must not occur, reached by the symbolic executor on this path):
+        # the violation is the reached program point; the solvers could not show the path infeasible
+        return idx, 'sat', 'reached-by-symbolic-execution (path not refuted)', time.time() - t0, None, log
     # no verdict: look for a candidate counterexample of the quantifier-free weakening (counts only if replay confirms it)
     if ground:
         try:
